@@ -550,7 +550,9 @@ func (c *Controller) addOrUpdateService(pre, curr *v1.Service, currConv *model.S
 	// TODO(nmittler): Build different sets of endpoints for cluster.local and clusterset.local.
 	if updateEDSCache || features.EnableK8SServiceSelectWorkloadEntries {
 		endpoints := c.buildEndpointsForService(currConv, updateEDSCache)
-		if len(endpoints) > 0 {
+		// An empty result is passed on as well: endpoint slice events of a service exported to nobody do not
+		// reach the endpoint index, so it may still hold endpoints that went away in the meantime.
+		if len(endpoints) > 0 || (prevConv != nil && prevConv.Attributes.ExportTo.Contains(visibility.None)) {
 			c.opts.XDSUpdater.EDSCacheUpdate(shard, string(currConv.Hostname), ns, endpoints)
 		}
 	}
